@@ -466,7 +466,13 @@ class MultiStream(Stream):
             self.phase, = phases
         phases = phase_tuple(phases)
         if phases != self.phases:
-            self._imol = self._imol.to_material_indexer(phases)
+            self._imol = imol = self._imol.to_material_indexer(phases)
+            streams = self._streams
+            for phase in tuple(streams):
+                if phase in imol._phase_indexer:
+                    streams[phase]._imol = imol.get_phase(phase)
+                else:
+                    del streams[phase]
             self.reset_cache()
     
     ### Flow properties ###
